@@ -49,3 +49,26 @@ Theorem C04_json_string_scalar :
     Forall (fun c => scalar c = true) t -> Forall (fun c => scalar c = true) s.
 Proof. exact json_read_string_scalar. Qed.
 Print Assumptions C04_json_int_in_type.
+
+(* the general theorems at the two concrete formats: a JSON / MessagePack document deserializes into a String or
+   integer newtype only through the constructor applied to what the format's reader yields for the inner type *)
+From NV Require Import Sem.MsgPack.
+Theorem C04_json_sound :
+  forall (lib : fnlib) (d : decl) (doc : list N) (v : value),
+    deserialize lib (list N) (json_de_inner (d_family d)) json_unwrap d doc = OOk v ->
+    exists raw, json_de_inner (d_family d) doc = Some raw /\ construct lib d raw = OOk v.
+Proof.
+  intros lib d doc v H.
+  destruct (deserialize_sound lib (list N) (json_de_inner (d_family d)) json_unwrap d doc v H) as (inner & raw & Hu & Hd & Hc).
+  unfold json_unwrap in Hu. injection Hu as <-. exists raw. split; assumption.
+Qed.
+Theorem C04_msgpack_sound :
+  forall (lib : fnlib) (d : decl) (doc : list N) (v : value),
+    deserialize lib (list N) (mp_de_inner (d_family d)) mp_unwrap d doc = OOk v ->
+    exists raw, mp_de_inner (d_family d) doc = Some raw /\ construct lib d raw = OOk v.
+Proof.
+  intros lib d doc v H.
+  destruct (deserialize_sound lib (list N) (mp_de_inner (d_family d)) mp_unwrap d doc v H) as (inner & raw & Hu & Hd & Hc).
+  unfold mp_unwrap in Hu. injection Hu as <-. exists raw. split; assumption.
+Qed.
+Print Assumptions C04_msgpack_sound.
